@@ -133,8 +133,8 @@ PROPS["C18"] = {
 }
 
 _MOCK_RULES = [
-    [r"11find_region", 4], [r"10try_access", 5], [r"MockMem5owner", 4], [r"MockMem3run", 9], [r"10any_layout", 4],
-    [r"10MockRegion.*5(write|read)\.", 8],
+    [r"11find_region", 4], [r"10try_access", 5], [r"MockMem5owner", 4], [r"MockMem3run", 9], [r"any_layout", 4],
+    [r"10MockRegion.*(5write|4read)\.", 8],
     [r"19copy_slice_volatile", 9],
 ]
 
@@ -143,7 +143,7 @@ PROPS["C03"] = {
         # L1: real try_access + blanket Bytes<GuestAddress> over the contract-level mock, symbolic layouts
         {"crate": "std", "quick": ["c03::r1", "c03::r2::write", "c03::r2::read"], "thorough": ["c03::r2", "c03::r3"],
          "jobs": 6, "mem_gb": 10, "timeout_s": 1200, "timeout_thorough_s": 3600,
-         "unwindset": {"default": 3, "rules": _MOCK_RULES}},
+         "unwindset": {"default": 5, "rules": _MOCK_RULES}},
         # L2: the real GuestRegionMmap satisfies the region contract
         {"crate": "std", "quick": ["regn::"], "jobs": 6, "mem_gb": 10, "timeout_s": 900, "stubbed": True},
     ],
@@ -233,4 +233,32 @@ PROPS["C13"] = {
                "Vec::write_all_volatile (default loop over Vec::write_volatile: > 16 GB); TcpStream/UnixStream/OwnedFd/BorrowedFd/Stdout share the File code path "
                "(read_volatile_raw_fd/write_volatile_raw_fd) and are not instantiated separately; real descriptors",
     "assumptions": ["twin = the std::io::Read/Write impl of the std Kani compiles (nightly-2026-08-21)", "cffi.rs read/write/__errno_location models"],
+}
+
+_C14_RULES = _MOCK_RULES + [
+    [r"Script9from_code", 5], [r"c1411model_exact", 5], [r"c1410model_upto", 5], [r"guest_read_body", 5],
+    [r"3c14.*6Script.*12ReadVolatile13read_volatile", 7], [r"3c14.*6Script.*13WriteVolatile14write_volatile", 7],
+    [r"19read_exact_volatile", 5], [r"18write_all_volatile", 5], [r"18read_volatile_from", 5], [r"17write_volatile_to", 5],
+    [r"24read_exact_volatile_from", 5], [r"21write_all_volatile_to", 5],
+]
+
+PROPS["C14"] = {
+    "groups": [
+        # quick: every length<=2 script on the cheap forms, EINTR-first scripts and the guest level by representatives
+        # (each of those is a 5-7 minute query); thorough: the complete length<=2 and length-3 grids on all six forms
+        {"crate": "std", "quick": ["c14::q_slice_read_exact::s_z", "c14::q_slice_read_exact::s_h", "c14::q_slice_read_exact::s_tz", "c14::q_slice_read_exact::s_th", "c14::q_slice_read_exact::s_ti", "c14::q_slice_read_exact::s_tt", "c14::q_slice_write_all::s_z", "c14::q_slice_write_all::s_h", "c14::q_slice_write_all::s_tz", "c14::q_slice_write_all::s_th", "c14::q_slice_write_all::s_ti", "c14::q_slice_write_all::s_tt", "c14::q_slice_read_exact::s_it", "c14::q_slice_read_exact::s_ih", "c14::q_slice_write_all::s_it", "c14::q_slice_read_upto", "c14::q_slice_write_upto", "c14::q_guest_read_upto::s_ti", "c14::q_guest_read_exact::s_it"],
+         "thorough": ["c14::q_", "c14::t_"], "jobs": 6, "mem_gb": 10, "timeout_s": 1500, "timeout_thorough_s": 3600,
+         "unwind_is_violation": True,
+         "kani_flags": ["-Z", "restrict-vtable"],
+         # default 1 also bounds *recursion*: the virtual drop of io::Error's boxed payload (dropped by the library itself in
+         # retry_eintr!) recurses through every dyn Error type; every real loop therefore has an explicit bound below
+         "unwindset": {"default": 1, "rules": _C14_RULES}},
+    ],
+    "bounds": "every script of per-call behaviours (transfer up to a SYMBOLIC amount / zero / EINTR / hard error; zero and hard error end a script) of length "
+              "<= 2 (thorough: length 3), the script kinds enumerated as a grid of solver queries, amounts symbolic; counts <= 3, any start address; slice level: exact and up-to forms, both directions, 8-byte slice; guest level (real try_access over the mock): stream -> memory, "
+              "two regions of size <= 4 with symbolic bases, range may span both and end in a hole; executions needing a longer script are cut (assume)",
+    "outside": "longer scripts and counts; guest-level memory -> stream direction and region-level wrappers (same slice code + error mapping, see regn.rs); real descriptors "
+               "(fd level: one call per harness in C13)",
+    "assumptions": ["Script (c14.rs) is harness code implementing ReadVolatile/WriteVolatile; it stamps delivered bytes 0xA0+k",
+                    "an unwinding-assertion failure in these harnesses is reported as a violation (a retry loop that does not terminate within the script bound)"],
 }
